@@ -581,6 +581,10 @@ cpc_sketch_alloc<A> cpc_sketch_alloc<A>::deserialize(std::istream& is, uint64_t 
     throw std::invalid_argument("Incompatible seed hashes: " + std::to_string(seed_hash) + ", "
         + std::to_string(compute_seed_hash(seed)));
   }
+  if (compressed.table_num_entries > num_coupons) {
+    throw std::invalid_argument("Possible corruption: table entries " + std::to_string(compressed.table_num_entries)
+        + " exceed the number of coupons " + std::to_string(num_coupons));
+  }
   uncompressed_state<A> uncompressed(allocator);
   get_compressor<A>().uncompress(compressed, uncompressed, lg_k, num_coupons);
   if (!is.good())
@@ -674,6 +678,10 @@ cpc_sketch_alloc<A> cpc_sketch_alloc<A>::deserialize(const void* bytes, size_t s
   if (seed_hash != compute_seed_hash(seed)) {
     throw std::invalid_argument("Incompatible seed hashes: " + std::to_string(seed_hash) + ", "
         + std::to_string(compute_seed_hash(seed)));
+  }
+  if (compressed.table_num_entries > num_coupons) {
+    throw std::invalid_argument("Possible corruption: table entries " + std::to_string(compressed.table_num_entries)
+        + " exceed the number of coupons " + std::to_string(num_coupons));
   }
   uncompressed_state<A> uncompressed(allocator);
   get_compressor<A>().uncompress(compressed, uncompressed, lg_k, num_coupons);
